@@ -48,15 +48,30 @@ def unz(s):
     return -int(s[1:], 16) if s.startswith("-") else int(s, 16)
 
 
+import threading as _threading
+
+_quiet_lock = _threading.Lock()
+_quiet_depth = 0
+_quiet_saved = None
+
+
 @contextlib.contextmanager
 def quiet():
-    """Swallow python-level stdout/stderr (fd-level capture is C13's job)."""
-    o, e = sys.stdout, sys.stderr
-    sys.stdout, sys.stderr = io.StringIO(), io.StringIO()
+    """Swallow python-level stdout/stderr (fd-level capture is C13's job).  Re-entrant and safe
+    under threads: the first entry swaps the streams, the last exit restores them."""
+    global _quiet_depth, _quiet_saved
+    with _quiet_lock:
+        if _quiet_depth == 0:
+            _quiet_saved = (sys.stdout, sys.stderr)
+            sys.stdout, sys.stderr = io.StringIO(), io.StringIO()
+        _quiet_depth += 1
     try:
         yield
     finally:
-        sys.stdout, sys.stderr = o, e
+        with _quiet_lock:
+            _quiet_depth -= 1
+            if _quiet_depth == 0:
+                sys.stdout, sys.stderr = _quiet_saved
 
 
 def front_of_message(validate, data):
